@@ -99,6 +99,21 @@ def main(argv):
                 fb |= junit_failures(f"/tmp/{sid}_bg.xml") or set()
             json.dump(sorted(fb), open(base_file, "w"))
         new_fail = sorted((fp or set()) - fb)
+        # timing-sensitive tests fail under machine load: a test that fails only in the loaded run but passes when run on
+        # its own with the patch applied is not a failure caused by the patch
+        if new_fail:
+            run(f"git apply {os.path.join(src, 'patch.diff')}", wt)
+            still = []
+            for tid in new_fail:
+                cls_, _, name = tid.partition("::")
+                path = cls_.replace(".", "/") + ".py"
+                base_name = name.split("[")[0]
+                rr = run(f"{PY} -m pytest -q -p no:cacheprovider --timeout=900 {path} -k '{base_name}'", wt)
+                if rr.returncode != 0:
+                    still.append(tid)
+            report["flaky_under_load_passed_alone"] = [t for t in new_fail if t not in still]
+            new_fail = still
+            run("git checkout -- .", wt)
         report["tests"] = tests + (" + grpc(sequential)" if grpc else "")
         report["tests_summary_patched"] = (rp.stdout.strip().splitlines() or ["?"])[-1][-120:]
         report["new_test_failures_with_patch"] = new_fail[:10]
